@@ -1,4 +1,5 @@
 import Fdo.Cose.Sign1
+import Fdo.Prim.Modes
 /-
 The TO2 tunnel: `kex.SessionCrypter.Decrypt` / `Encrypt` over COSE_Encrypt0 (AEAD suites) and
 COSE_Mac0 around COSE_Encrypt0 (encrypt-then-MAC suites), abstract in the primitives.
@@ -74,6 +75,53 @@ def decryptEnc0 (P : Prims) (s : Suite) (sek : Bytes) (e0 : Val) : Option Bytes 
     (hdrBytes unprot 5).bind fun iv =>
     (cipherOpen P s sek iv prot c).bind fun p =>
     (unmarshalRaw p).bind fun _ => some p
+  | _ => none
+
+
+/-! ### the sending side -/
+
+/-- IV / nonce size of the suite's cipher (`NonceSize` of GCM, the AES block size otherwise). -/
+def ivLen (s : Suite) : Nat := if s.kind = .aead then 12 else 16
+
+/-- The cipher-specific part of `Crypter.Encrypt` for the IV drawn from the random source:
+AEAD seal over Enc_structure, CTR keystream, CBC over the PKCS#7-padded plaintext. -/
+def cipherSeal (P : Prims) (s : Suite) (sek iv : Bytes) (prot : List (Val × AnyVal)) (p : Bytes) : Option Bytes :=
+  match s.kind with
+  | .aead => if iv.length ≠ 12 then none else P.aeadSeal sek iv (encStructure prot) p
+  | .ctr => if iv.length ≠ 16 then none else P.ctr sek iv p
+  | .cbc => if iv.length ≠ 16 then none else P.cbcEnc sek iv (Fdo.Prim.pad p 16)
+
+/-- `Encrypt0.Encrypt`: algorithm in the protected header for AEAD algorithms and in the unprotected one
+otherwise, the IV (the next `ivLen` bytes of the random source) in the unprotected header. Returns the
+decoded form of the COSE_Encrypt0. -/
+def encryptEnc0 (P : Prims) (s : Suite) (sek iv : Bytes) (p : Bytes) : Option Val :=
+  if sek.length ≠ s.encKeyBytes then none else
+  let prot : List (Val × AnyVal) := if s.kind = .aead then [(.int 1, .int s.encAlg)] else []
+  let unprot : List (Val × AnyVal) := if s.kind = .aead then [(.int 5, .bytes iv)] else [(.int 1, .int s.encAlg), (.int 5, .bytes iv)]
+  (cipherSeal P s sek iv prot p).bind fun c => some (.strct [.hdr prot unprot, .ref (.bytes c)])
+
+/-- `SessionCrypter.Encrypt` of the marshalled payload `p` with the random stream `rnd`: (tag number,
+decoded content, unread rest of the random stream). AEAD suites send the COSE_Encrypt0 under tag 16;
+the others wrap it in a COSE_Mac0 (tag 17) whose protected header names the MAC algorithm and whose
+value is the MAC over MAC_structure of the encoded COSE_Encrypt0. -/
+def encryptVal (P : Prims) (s : Suite) (sek svk : Bytes) (enc0S : Schema) (rnd p : Bytes) : Option (Nat × Val × Bytes) :=
+  if rnd.length < ivLen s then none else
+  (encryptEnc0 P s sek (rnd.take (ivLen s)) p).bind fun e0 =>
+  if s.macAlg = 0 then some (16, e0, rnd.drop (ivLen s))
+  else if svk.length ≠ s.macKeyBytes then none else
+    (marshalS enc0S e0).bind fun e0b =>
+    let prot : List (Val × AnyVal) := [(.int 1, .int s.macAlg)]
+    (P.mac s.macAlg svk (toBeSigned ctxMac0 (encProtected prot) [] e0b)).bind fun m =>
+    some (17, .strct [.hdr prot [], .ref e0, .bytes m], rnd.drop (ivLen s))
+
+/-- the IV a sent message carries -/
+def ivOfEnc0 : Val → Option Bytes
+  | .strct [.hdr _ unprot, _] => hdrBytes unprot 5
+  | _ => none
+def ivOfSent (t : Nat) (inner : Val) : Option Bytes :=
+  if t = 16 then ivOfEnc0 inner else
+  match inner with
+  | .strct [_, .ref e0, _] => ivOfEnc0 e0
   | _ => none
 
 inductive Dec where
